@@ -70,6 +70,7 @@ Same(a, cls, n) ==
   IF a \in {"ALPHA", "CMT"} /\ AlphaIsCmt(n) THEN {"ALPHA", "CMT"}
   ELSE IF a \in {"KEY", "IR1"} /\ cls = "ir-key" THEN {"KEY", "IR1"}      \* audit.put: From is designated key 0
   ELSE IF a \in {"KEY", "M1"} /\ cls = "own-alphabet-node" /\ n = 1 THEN {"KEY", "M1"}
+  ELSE IF a \in {"KEY", "M1"} /\ cls \in {"key@m1", "key+alphabet@m1"} THEN {"KEY", "M1"}   \* the named key is member 0's
                                                     \* alphabet.emit: the contract's index is n-1
   ELSE {a}
 
@@ -78,7 +79,7 @@ Norm(S, cls, n) == UNION {Same(a, cls, n) : a \in S}
 (***************************************************************************)
 (* Authorisation classes. S is a normalised signer set.                    *)
 (***************************************************************************)
-Classes == {"stored-key", "candidate-or-stored-key", "calling-contract", "alphabet", "committee", "alphabet-role-majority", "key+alphabet", "key", "ir-key",
+Classes == {"key@m1", "key+alphabet@m1", "stored-key", "candidate-or-stored-key", "calling-contract", "alphabet", "committee", "alphabet-role-majority", "key+alphabet", "key", "ir-key",
             "holder-or-caller", "holder-or-alphabet", "nns-owner", "nns-owner+key", "nns-admin", "nns-parent",
             "own-alphabet-node", "candidate-or-alphabet", "signatures-in-arguments",
             "gas-only-callback", "gas-or-neo-callback", "none", "never", "safe"}
@@ -89,6 +90,8 @@ Sufficient(cls, S) ==
     [] cls = "alphabet-role-majority"  -> "IRMAJ" \in S
     [] cls = "key+alphabet"            -> "KEY" \in S /\ "ALPHA" \in S
     [] cls = "key"                     -> "KEY" \in S
+    [] cls = "key@m1"                  -> "KEY" \in S
+    [] cls = "key+alphabet@m1"         -> "KEY" \in S /\ "ALPHA" \in S
     [] cls = "ir-key"                  -> "KEY" \in S
     [] cls = "holder-or-caller"        -> "KEY" \in S
     [] cls = "calling-contract"        -> "VIACALLER" \in S
@@ -114,10 +117,10 @@ Exact(cls, S, n) ==
   /\ Sufficient(cls, S)
   /\ \A a \in S : ~Sufficient(cls, S \ Same(a, cls, n))
 
-Kind(safe, cls, S, n) ==
+Kind(safe, io, cls, S, n) ==
   IF safe THEN "safe"
   ELSE IF ~Sufficient(cls, S) THEN "inert"
-  ELSE IF Exact(cls, S, n) THEN "succeed"
+  ELSE IF ~io /\ Exact(cls, S, n) THEN "succeed"     \* io: inert-only argument variant (see Mv)
   ELSE "unspecified"
 
 \* verify() of Proxy / Alphabet / Processing
@@ -138,16 +141,23 @@ VerifyAccepts(cls, S) ==
 (* netmap.updateSnapshotCount) the class is the one of Appendix A / C11.    *)
 (***************************************************************************)
 Mt(c, m, a, v, cls, ref, eff) ==
-  [c |-> c, m |-> m, a |-> a, v |-> v, safe |-> FALSE, cls |-> cls, ref |-> ref, eff |-> eff]
+  [c |-> c, m |-> m, a |-> a, v |-> v, safe |-> FALSE, cls |-> cls, ref |-> ref, eff |-> eff, io |-> FALSE, ok |-> "HALT"]
 Sf(c, m, a) ==
-  [c |-> c, m |-> m, a |-> a, v |-> "", safe |-> TRUE, cls |-> "safe", ref |-> "HALT", eff |-> {}]
+  [c |-> c, m |-> m, a |-> a, v |-> "", safe |-> TRUE, cls |-> "safe", ref |-> "HALT", eff |-> {}, io |-> FALSE, ok |-> "HALT"]
+\* ARGUMENT VARIANT of a mutating method, of the INERT-ONLY flavour: the same method on another argument vector
+\* (null / empty optional argument, zero or negative amount / count / epoch, self-referential arguments).  The
+\* statement promises success only for the canonical valid invocation, so only C03_Inert is judged on these rows;
+\*   ref  outcome without the witnesses ("FAULT", "false", or "HALT" for a silent no-op)
+\*   ok   outcome WITH sufficient witnesses ("HALT" with the effects eff, "FAULT", "false") - binding (drift) only
+Mv(c, m, a, v, cls, ref, ok, eff) ==
+  [c |-> c, m |-> m, a |-> a, v |-> v, safe |-> FALSE, cls |-> cls, ref |-> ref, eff |-> eff, io |-> TRUE, ok |-> ok]
 
 F == "FAULT"
 St == {"st"}  Nt == {"ntf"}  Tk == {"tok"}  SN == {"st", "ntf"}  TN == {"tok", "ntf"}  STN == {"st", "tok", "ntf"}
 
 Upd(c, cls) == Mt(c, "update", 3, "", cls, F, SN)    \* Management emits Update, the update counter grows
 
-Methods == {
+CoreMethods == {
   \* ---- alphabet ----
   Mt("alphabet", "emit", 0, "", "own-alphabet-node", F, TN),
   Mt("alphabet", "vote", 2, "", "alphabet", F, TN),
@@ -278,6 +288,106 @@ Methods == {
   Sf("reputation", "get", 2), Sf("reputation", "getByID", 1), Sf("reputation", "listByEpoch", 1)
 }
 
+(***************************************************************************)
+(* Argument variants (inert-only rows).  H = HALT.                          *)
+(***************************************************************************)
+H == "HALT"
+ArgVariants == {
+  \* ---- alphabet ----
+  Mv("alphabet", "vote", 2, "empty", "alphabet", F, F, {}),              \* no candidates: index % 0
+  Mv("alphabet", "vote", 2, "negepoch", "alphabet", F, F, {}),
+  Mv("alphabet", "onNEP17Payment", 3, "zero", "gas-only-callback", F, H, Nt),   \* a GAS payment of 0
+  \* ---- balance ----
+  Mv("balance", "transfer", 4, "data", "holder-or-caller", "false", H, SN),      \* non-null data
+  Mv("balance", "transfer", 4, "neg", "holder-or-caller", "false", "false", {}),
+  Mv("balance", "transfer", 4, "self", "holder-or-caller", "false", H, Nt),      \* from = to
+  Mv("balance", "transferX", 4, "nodetails", "alphabet", F, H, SN),              \* details = null
+  Mv("balance", "transferX", 4, "neg", "alphabet", F, F, {}),
+  Mv("balance", "transferX", 4, "self", "alphabet", F, H, Nt),
+  Mv("balance", "lock", 5, "neg", "alphabet", F, F, {}),
+  Mv("balance", "lock", 5, "self", "alphabet", F, F, {}),                        \* lock account = holder
+  Mv("balance", "lock", 5, "neguntil", "alphabet", F, H, SN),
+  Mv("balance", "mint", 3, "neg", "alphabet", F, F, {}),
+  Mv("balance", "mint", 3, "nodetails", "alphabet", F, F, {}),                   \* null cannot be appended to the prefix
+  Mv("balance", "burn", 3, "neg", "alphabet", F, F, {}),
+  Mv("balance", "burn", 3, "nodetails", "alphabet", F, F, {}),
+  Mv("balance", "newEpoch", 1, "zero", "alphabet", F, H, {}),                    \* nothing expires at epoch 0
+  Mv("balance", "newEpoch", 1, "neg", "alphabet", F, H, {}),
+  \* ---- container ----
+  Mv("container", "put", 4, "token", "alphabet", F, H, SN),                      \* non-empty session token
+  Mv("container", "put", 4, "alphaowner", "alphabet", F, H, SN),                 \* the owner is an Alphabet node (member 0)
+  Mv("container", "put", 5, "nometa", "alphabet", F, H, SN),
+  Mv("container", "putNamed", 6, "noname", "alphabet", F, H, SN),                \* name = zone = ""
+  Mv("container", "putNamed", 6, "zone", "alphabet", F, H, SN),                  \* explicit zone
+  Mv("container", "delete", 3, "token", "alphabet", F, H, SN),
+  Mv("container", "delete", 3, "missing", "alphabet", H, H, {}),                 \* unknown id: silent no-op for everybody
+  Mv("container", "setEACL", 4, "token", "alphabet", F, H, SN),
+  Mv("container", "addNextEpochNodes", 3, "empty", "alphabet", F, H, {}),        \* empty key list
+  Mv("container", "commitContainerListUpdate", 2, "noreplicas", "alphabet", F, H, SN),
+  Mv("container", "commitContainerListUpdate", 2, "nothing", "alphabet", F, H, Nt),  \* nothing accumulated
+  Mv("container", "newEpoch", 1, "zero", "alphabet", F, H, {}),
+  Mv("container", "newEpoch", 1, "neg", "alphabet", F, H, {}),
+  Mv("container", "startContainerEstimation", 1, "neg", "alphabet", F, H, Nt),
+  Mv("container", "stopContainerEstimation", 1, "zero", "alphabet", F, H, Nt),
+  Mv("container", "putContainerSize", 4, "zero", "key", F, H, St),               \* epoch 0, size 0
+  Mv("container", "putContainerSize", 4, "neg", "key", F, H, St),
+  Mv("container", "submitObjectPut", 2, "nosigs", "signatures-in-arguments", F, H, Nt),  \* empty signature list instead of a wrong one
+  \* ---- neofs ----
+  Mv("neofs", "alphabetUpdate", 2, "empty", "alphabet", F, F, {}),
+  Mv("neofs", "bind", 2, "empty", "key", F, H, Nt),
+  Mv("neofs", "unbind", 2, "empty", "key", F, H, Nt),
+  Mv("neofs", "cheque", 4, "zero", "alphabet", F, H, Nt),
+  Mv("neofs", "cheque", 4, "neg", "alphabet", F, F, {}),
+  Mv("neofs", "cheque", 4, "self", "alphabet", F, H, Nt),                        \* the payee is the contract itself
+  Mv("neofs", "innerRingCandidateAdd", 1, "alphakey", "key@m1", F, H, STN),         \* the candidate is an Alphabet node (KEY = M1)
+  Mv("neofs", "innerRingCandidateRemove", 1, "absent", "candidate-or-alphabet", F, H, {}),
+  Mv("neofs", "setConfig", 3, "empty", "alphabet", F, H, SN),                    \* empty id, key and value
+  Mv("neofs", "withdraw", 2, "zero", "key", F, H, TN),
+  Mv("neofs", "withdraw", 2, "neg", "key", F, F, {}),
+  Mv("neofs", "onNEP17Payment", 3, "zero", "gas-only-callback", F, F, {}),
+  Mv("neofs", "onNEP17Payment", 3, "ignore", "gas-only-callback", H, H, TN),     \* data = the "ignore deposit" marker
+  \* ---- neofsid ----
+  Mv("neofsid", "addKey", 2, "empty", "alphabet", F, H, {}),
+  Mv("neofsid", "removeKey", 2, "empty", "alphabet", F, H, {}),
+  \* ---- netmap ----
+  Mv("netmap", "addNode", 1, "alphakey", "key+alphabet@m1", F, H, SN),              \* the node key is an Alphabet node's (KEY = M1)
+  Mv("netmap", "deleteNode", 1, "absent", "alphabet", F, H, Nt),
+  Mv("netmap", "newEpoch", 1, "zero", "alphabet", F, F, {}),
+  Mv("netmap", "newEpoch", 1, "neg", "alphabet", F, F, {}),
+  Mv("netmap", "setConfig", 3, "empty", "alphabet", F, H, St),
+  Mv("netmap", "subscribeForNewEpoch", 1, "again", "alphabet", F, H, {}),        \* already subscribed
+  Mv("netmap", "updateSnapshotCount", 1, "neg", "alphabet", F, F, {}),
+  Mv("netmap", "updateSnapshotCount", 1, "same", "alphabet", F, F, {}),
+  Mv("netmap", "updateState", 2, "offline", "key+alphabet", F, H, SN),
+  Mv("netmap", "updateState", 2, "badstate", "key+alphabet", F, F, {}),
+  Mv("netmap", "updateStateIR", 2, "offline", "alphabet", F, H, SN),
+  Mv("netmap", "updateStateIR", 2, "badstate", "alphabet", F, F, {}),
+  \* ---- nns ----
+  Mv("nns", "addRecord", 3, "emptytxt", "nns-admin", F, H, St),
+  Mv("nns", "register", 7, "noemail", "key", F, H, SN),
+  Mv("nns", "renew", 2, "zero", "nns-admin", F, F, {}),
+  Mv("nns", "renew", 2, "neg", "nns-admin", F, F, {}),
+  Mv("nns", "setAdmin", 2, "null", "nns-owner", F, H, SN),                       \* admin = null: the owner alone
+  Mv("nns", "setAdmin", 2, "self", "nns-owner", F, H, SN),                       \* admin = owner
+  Mv("nns", "setPrice", 1, "neg", "committee", F, F, {}),
+  Mv("nns", "transfer", 3, "data", "nns-owner", "false", H, SN),                 \* non-null data
+  Mv("nns", "transfer", 3, "self", "nns-owner", "false", H, Nt),                 \* to = owner
+  Mv("nns", "updateSOA", 6, "noemail", "nns-admin", F, H, St),
+  \* ---- processing / proxy ----
+  Mv("proxy", "onNEP17Payment", 3, "zero", "gas-only-callback", F, H, Nt),
+  Mv("processing", "onNEP17Payment", 3, "zero", "gas-only-callback", F, H, Nt),
+  \* ---- reputation ----
+  Mv("reputation", "put", 3, "zero", "alphabet", F, H, St),                      \* epoch 0, empty id and value
+  Mv("reputation", "put", 3, "neg", "alphabet", F, H, St)
+} \cup {Mv(c, "update", 3, "data", (CHOOSE u \in CoreMethods : u.c = c /\ u.m = "update").cls, F, H, SN) :
+         c \in {"alphabet", "audit", "balance", "container", "neofs", "neofsid", "netmap", "nns", "processing", "proxy", "reputation"}}
+        \* update with non-null data
+
+\* every safe method that takes arguments, once more on edge values (negative numbers, empty byte strings and lists)
+SafeEdge == {[s EXCEPT !.v = "edge"] : s \in {x \in CoreMethods : x.safe /\ x.a > 0}}
+
+Methods == CoreMethods \cup ArgVariants \cup SafeEdge
+
 Verifiers == {
   [c |-> "proxy",      cls |-> "verify-alpha-or-cmt"],
   [c |-> "alphabet",   cls |-> "verify-alpha-or-cmt"],
@@ -320,7 +430,7 @@ NeoSets == {{"VIANEO", "KEY"}, {"VIANEO", "X"}}
 ViaSets == {{"VIACALLER"}, {"VIACALLER", "X"}, {"VIACALLER", "KEY"}, {"VIACALLER", "CMT"}}
 Everybody == {"ALPHA", "CMT", "M1", "IRMAJ", "IR1", "X"}
 
-UsesKey(cls) == cls \in {"key+alphabet", "key", "ir-key", "holder-or-caller", "holder-or-alphabet",
+UsesKey(cls) == cls \in {"key@m1", "key+alphabet@m1", "key+alphabet", "key", "ir-key", "holder-or-caller", "holder-or-alphabet",
                          "own-alphabet-node", "candidate-or-alphabet", "candidate-or-stored-key", "never"}
 UsesNNS(cls) == cls \in {"nns-owner", "nns-owner+key", "nns-admin", "nns-parent"}
 
@@ -341,7 +451,7 @@ VerifySets == {{}, {"X"}, {"M1"}, {"CMT"}, {"ALPHA"}, {"IRMAJ"}, {"M1", "X"}}
 (***************************************************************************)
 \* ret is "false" for a returned boolean false, "true" for true, "other" otherwise
 Event(act, m, cls, S, n, res, ret, ntf, valid) ==
-  [act |-> act, c |-> m.c, m |-> m.m, a |-> m.a, v |-> m.v, safe |-> m.safe, cls |-> cls,
+  [act |-> act, c |-> m.c, m |-> m.m, a |-> m.a, v |-> m.v, safe |-> m.safe, io |-> m.io, cls |-> cls,
    S |-> S, n |-> n, res |-> res, ret |-> ret, ntf |-> ntf, valid |-> valid]
 
 Changed(x, y, ch) == y \in WorldSpace /\ ((y # x) <=> ch)
@@ -359,16 +469,25 @@ Invoke(m, S0, n) ==
       S    == Norm(S0, cls, n)
       code == CodeClassOf(m)
   IN  IF m.safe
-      THEN \* the VM runs safe methods without WriteStates|AllowNotify
+      THEN \* the VM runs safe methods without WriteStates|AllowNotify (edge arguments may make a reader fault)
            /\ world' = world /\ tok' = tok
-           /\ \E ret \in {"true", "false", "other"} : ev' = Event("invoke", m, cls, S, n, "HALT", ret, FALSE, TRUE)
+           /\ \E ret \in {"true", "false", "other"}, res \in (IF m.v = "edge" THEN {"HALT", "FAULT"} ELSE {"HALT"}) :
+                 ev' = Event("invoke", m, cls, S, n, res, ret, FALSE, TRUE)
       ELSE IF ~Sufficient(code, S)
-      THEN \* a refusing method faults (or returns false: NEP-17/NEP-11 transfer); a native token contract
-           \* refuses a transfer that the sender did not witness by returning false
-           LET soft == m.ref = "false" \/ S0 \cap {"VIAGAS", "VIANEO"} # {} IN
+      THEN \* a native token contract refuses a transfer that the sender did not witness by returning false;
+           \* a refusing method faults, returns false (NEP-17/NEP-11 transfer) or - argument variants only -
+           \* halts as a silent no-op
+           LET how == IF S0 \cap {"VIAGAS", "VIANEO"} # {} THEN "false" ELSE m.ref IN
            /\ world' = world /\ tok' = tok
-           /\ ev' = Event("invoke", m, cls, S, n, IF soft THEN "HALT" ELSE "FAULT",
-                          IF soft THEN "false" ELSE "other", FALSE, TRUE)
+           /\ ev' = Event("invoke", m, cls, S, n, IF how = "FAULT" THEN "FAULT" ELSE "HALT",
+                          IF how = "false" THEN "false" ELSE "other", FALSE, TRUE)
+      ELSE IF m.ok # "HALT"
+      THEN \* argument variant that is refused even with the witnesses (negative amount, empty list, ...)
+           /\ world' = world /\ tok' = tok
+           \* (the log of a transaction that faults late may still list what a callee announced before)
+           /\ \E nt \in (IF m.ok = "FAULT" THEN BOOLEAN ELSE {FALSE}) :
+                 ev' = Event("invoke", m, cls, S, n, IF m.ok = "FAULT" THEN "FAULT" ELSE "HALT",
+                             IF m.ok = "false" THEN "false" ELSE "other", nt, TRUE)
       ELSE /\ Changed(world, world', "st" \in EffOf(m, n))
            /\ Changed(tok, tok', "tok" \in EffOf(m, n))
            /\ \E ret \in {"true", "other"} : ev' = Event("invoke", m, cls, S, n, "HALT", ret, "ntf" \in EffOf(m, n), TRUE)
@@ -404,7 +523,7 @@ C03_Inert(e) ==
 
 \* exactly the required witnesses on the canonical valid arguments: the call goes through
 C03_Succeeds(e) ==
-  Mutating(e) /\ Exact(e.cls, e.S, e.n) => e.res = "HALT" /\ e.ret # "false"
+  Mutating(e) /\ ~e.io /\ Exact(e.cls, e.S, e.n) => e.res = "HALT" /\ e.ret # "false"
 
 \* methods declared safe never modify state, whoever signs
 C03_SafeInert(e) ==
@@ -418,6 +537,6 @@ C03_Verify(e) ==
      /\ world' = world /\ tok' = tok /\ ~e.ntf
 
 TypeOK == /\ world \in WorldSpace /\ tok \in WorldSpace
-          /\ \A m \in Methods : m.cls \in Classes /\ m.eff \subseteq {"st", "ntf", "tok"} /\ m.ref \in {"FAULT", "false", "HALT"}
+          /\ \A m \in Methods : m.cls \in Classes /\ m.eff \subseteq {"st", "ntf", "tok"} /\ m.ref \in {"FAULT", "false", "HALT"} /\ m.ok \in {"HALT", "FAULT", "false"}
 
 =============================================================================
